@@ -25,6 +25,7 @@ import (
 	dtlsstate "github.com/pion/dtls/v3/internal/state"
 	"github.com/pion/dtls/v3/pkg/crypto/selfsign"
 	"github.com/pion/dtls/v3/pkg/protocol"
+	"github.com/pion/logging"
 )
 
 // ---------------------------------------------------------------- variants
@@ -256,6 +257,12 @@ type c19IState struct {
 	Hint         string   `json:"hint"`
 	SessionID    string   `json:"session_id"`
 	ALPN         string   `json:"alpn"` // hex of the protocol string
+	EMS          bool     `json:"ems"`
+	LocalCIDOff  bool     `json:"local_cid_offered"`
+	RemoteCIDOff bool     `json:"remote_cid_offered"`
+	CertsVerif   bool     `json:"certs_verified"`
+	HsSend       int      `json:"hs_send"`
+	HsRecv       int      `json:"hs_recv"`
 }
 
 func c19CertDigests(certs [][]byte) ([]string, []int) {
@@ -298,7 +305,10 @@ func c19Internal(c *Conn) c19IState {
 	}
 	if st12, err := dtlsstate.As12(c.state); err == nil {
 		out.Master = vHex(st12.MasterSecret)
+		out.EMS, out.CertsVerif = st12.ExtendedMasterSecret, st12.PeerCertificatesVerified
+		out.HsSend, out.HsRecv = st12.HandshakeSendSequence, st12.HandshakeRecvSequence
 	}
+	out.LocalCIDOff, out.RemoteCIDOff = common.LocalCIDOffered, common.RemoteCIDOffered
 	out.Certs, out.CertLens = c19CertDigests(common.PeerCertificates)
 
 	return out
@@ -844,6 +854,8 @@ type c19Corrupt struct {
 	Diff    []string   `json:"diff"`
 	Orig    *c19PState `json:"orig,omitempty"`
 	Decoded *c19PState `json:"decoded,omitempty"`
+	Input   *c19PState `json:"input,omitempty"` // the serializedState value that was gob-encoded (struct: mutations)
+	Peer    *c19PState `json:"peer,omitempty"`  // good state of the untouched peer
 	X2P     bool       `json:"x2p"` // a record written by the resumed (corrupted) side was delivered to the peer
 	P2X     bool       `json:"p2x"` // a record written by the peer was delivered by the resumed side
 	WErrX   string     `json:"werr_x"`
@@ -855,8 +867,8 @@ type c19Corrupt struct {
 // c19Trial decodes `mut` and, when that succeeds, resumes from it against a peer resumed from
 // the untouched peer's own (good) exported state, then tries one record in each direction.
 // Must run inside a bubble.
-func c19Trial(b *c19Base, name string, mut []byte) (res c19Corrupt) {
-	res = c19Corrupt{Kind: "corrupt", Base: b.v.Name, Side: b.side, Mut: name, Diff: []string{}}
+func c19Trial(b *c19Base, name string, mut []byte, input *c19PState) (res c19Corrupt) {
+	res = c19Corrupt{Kind: "corrupt", Base: b.v.Name, Side: b.side, Mut: name, Diff: []string{}, Input: input}
 	var cleanup []func()
 	defer func() {
 		if r := recover(); r != nil {
@@ -878,6 +890,8 @@ func c19Trial(b *c19Base, name string, mut []byte) (res c19Corrupt) {
 	res.Diff = c19Diff(b.origP, dp)
 	res.Decoded = &dp
 	res.Orig = &b.origP
+	pp0 := c19Public(&b.peer)
+	res.Peer = &pp0
 	net := newVNet()
 	epS, epP := net.endpoint(b.side), net.endpoint(b.peerName)
 	cleanup = append(cleanup, func() { _ = epS.Close(); _ = epP.Close(); synctest.Wait() })
@@ -923,7 +937,7 @@ func c19Trial(b *c19Base, name string, mut []byte) (res c19Corrupt) {
 	}
 	if len(res.Diff) == 0 {
 		res.Result = "ok-same"
-		res.Orig, res.Decoded = nil, nil
+		res.Orig = nil
 	} else {
 		res.Result = "ok-diff"
 		res.Hex = vHex(mut)
@@ -933,7 +947,21 @@ func c19Trial(b *c19Base, name string, mut []byte) (res c19Corrupt) {
 }
 
 // structured mutations: re-encode a chosen serializedState with gob
-func c19Structured(b *c19Base) map[string][]byte {
+func c19SerializedProj(z serializedState) *c19PState {
+	out := c19PState{
+		LocalEpoch: int(z.LocalEpoch), RemoteEpoch: int(z.RemoteEpoch), LocalRandom: vHex(z.LocalRandom[:]),
+		RemoteRandom: vHex(z.RemoteRandom[:]), Master: vHex(z.MasterSecret), Seq: z.SequenceNumber,
+		Suite: int(z.CipherSuiteID), Profile: int(z.SRTPProtectionProfile), MKI: vHex(z.PeerSRTPMKI),
+		LocalCID: vHex(z.LocalConnectionID), RemoteCID: vHex(z.RemoteConnectionID), RRC: z.RRCNegotiated,
+		IsClient: z.IsClient, Version: int(z.Version.Major)<<8 | int(z.Version.Minor),
+		Hint: vHex(z.IdentityHint), SessionID: vHex(z.SessionID), ALPN: vHex([]byte(z.NegotiatedProtocol)),
+	}
+	out.Certs, out.CertLens = c19CertDigests(z.PeerCertificates)
+
+	return &out
+}
+
+func c19Structured(b *c19Base) (map[string][]byte, map[string]*c19PState) {
 	base, err := b.orig.serialize()
 	if err != nil {
 		panic(err)
@@ -947,10 +975,12 @@ func c19Structured(b *c19Base) map[string][]byte {
 		return buf.Bytes()
 	}
 	out := map[string][]byte{}
+	inputs := map[string]*c19PState{}
 	mod := func(name string, f func(s *serializedState)) {
 		s := *base
 		f(&s)
 		out["struct:"+name] = enc(s)
+		inputs["struct:"+name] = c19SerializedProj(s)
 	}
 	mod("identity", func(*serializedState) {})
 	mod("version=1.3", func(s *serializedState) { s.Version = protocol.Version1_3 })
@@ -1026,7 +1056,7 @@ func c19Structured(b *c19Base) map[string][]byte {
 	mod("certs=none", func(s *serializedState) { s.PeerCertificates = nil })
 	mod("certs=garbage", func(s *serializedState) { s.PeerCertificates = [][]byte{{0x30, 0x00}, {}} })
 
-	return out
+	return out, inputs
 }
 
 func TestVerifC19Corrupt(t *testing.T) {
@@ -1054,19 +1084,20 @@ func TestVerifC19Corrupt(t *testing.T) {
 	for _, sp := range specs {
 		b := c19MakeBase(t, sp.v, sp.side)
 		type mutn struct {
-			name string
-			data []byte
+			name  string
+			data  []byte
+			input *c19PState
 		}
 		var muts []mutn
 		for l := 0; l < len(b.raw); l++ {
-			muts = append(muts, mutn{fmt.Sprintf("trunc:%d", l), append([]byte(nil), b.raw[:l]...)})
+			muts = append(muts, mutn{fmt.Sprintf("trunc:%d", l), append([]byte(nil), b.raw[:l]...), nil})
 		}
-		muts = append(muts, mutn{"extend:1", append(append([]byte(nil), b.raw...), 0)})
-		muts = append(muts, mutn{"extend:64", append(append([]byte(nil), b.raw...), rng.bytes(64)...)})
+		muts = append(muts, mutn{"extend:1", append(append([]byte(nil), b.raw...), 0), nil})
+		muts = append(muts, mutn{"extend:64", append(append([]byte(nil), b.raw...), rng.bytes(64)...), nil})
 		flip := func(pos, bit int) {
 			m := append([]byte(nil), b.raw...)
 			m[pos] ^= 1 << bit
-			muts = append(muts, mutn{fmt.Sprintf("flip:%d:%d", pos, bit), m})
+			muts = append(muts, mutn{fmt.Sprintf("flip:%d:%d", pos, bit), m, nil})
 		}
 		if vIsThorough() {
 			for pos := 0; pos < len(b.raw); pos++ {
@@ -1101,9 +1132,9 @@ func TestVerifC19Corrupt(t *testing.T) {
 				val ^= 0x10
 			}
 			m[pos] = val
-			muts = append(muts, mutn{fmt.Sprintf("byte:%d:%d", pos, val), m})
+			muts = append(muts, mutn{fmt.Sprintf("byte:%d:%d", pos, val), m, nil})
 		}
-		st := c19Structured(b)
+		st, stIn := c19Structured(b)
 		names := make([]string, 0, len(st))
 		for k := range st {
 			names = append(names, k)
@@ -1115,7 +1146,7 @@ func TestVerifC19Corrupt(t *testing.T) {
 			}
 		}
 		for _, k := range names {
-			muts = append(muts, mutn{k, st[k]})
+			muts = append(muts, mutn{k, st[k], stIn[k]})
 		}
 		const perBubble = 40
 		for lo := 0; lo < len(muts); lo += perBubble {
@@ -1127,7 +1158,7 @@ func TestVerifC19Corrupt(t *testing.T) {
 			var results []c19Corrupt
 			vBubble(t, func(t *testing.T) {
 				for _, m := range chunk {
-					results = append(results, c19Trial(b, m.name, m.data))
+					results = append(results, c19Trial(b, m.name, m.data, m.input))
 				}
 			})
 			for _, r := range results {
@@ -1184,5 +1215,182 @@ func TestVerifC19Suites(t *testing.T) {
 			row.Resume = err == nil
 		}()
 		out.emit(row)
+	}
+}
+
+// ---------------------------------------------------------------- custom suite / mid-handshake legs
+
+// c19CustomSuite is TLS_PSK_WITH_AES_128_GCM_SHA256 under a private id, configured through
+// WithCustomCipherSuites on both sides (a fresh instance per connection).
+type c19CustomSuite struct {
+	ciphersuite.TLSPskWithAes128GcmSha256
+}
+
+func (c *c19CustomSuite) ID() CipherSuiteID { return 0xff19 }
+func (c *c19CustomSuite) String() string    { return "VERIF_CUSTOM_PSK_AES128_GCM" }
+
+type c19Extra struct {
+	Kind       string `json:"kind"`
+	Name       string `json:"name"`
+	Side       string `json:"side"`
+	Suite      int    `json:"suite"`
+	ExportOK   bool   `json:"export_ok"`
+	MarshalErr string `json:"marshal_err"`
+	DecodeErr  string `json:"decode_err"`
+	ResumeErr  string `json:"resume_err"` // resuming from the State object itself (no bytes involved)
+	Panic      string `json:"panic"`
+	At         string `json:"at"`
+	LocalEpoch int    `json:"local_epoch"`
+	LocalSeqs  int    `json:"local_seq_len"`
+}
+
+// TestVerifC19Custom: a connection negotiated on a suite that only the configuration's custom
+// list knows - state.go looks suites up with ForID(id, nil).
+func TestVerifC19Custom(t *testing.T) {
+	out := newVOut(t)
+	for _, side := range []string{"client", "server"} {
+		side := side
+		res := c19Extra{Kind: "custom", Name: "custom-psk-gcm", Side: side}
+		vBubble(t, func(t *testing.T) {
+			mk := func() *dtlsConfig {
+				c := vBaseConfig()
+				c.psk = func([]byte) ([]byte, error) { return []byte{0xAB, 0xC1, 0x23}, nil }
+				c.PSKIdentityHint = []byte("verif")
+				c.customCipherSuites = func() []CipherSuite { return []CipherSuite{&c19CustomSuite{}} }
+				c.CipherSuites = []CipherSuiteID{}
+
+				return c
+			}
+			ccfg, scfg := mk(), mk()
+			lab := c19Establish(t, ccfg, scfg)
+			self, peer := lab.peer(side), lab.other(side)
+			func() {
+				defer func() {
+					if r := recover(); r != nil {
+						res.Panic = fmt.Sprint(r)
+					}
+				}()
+				st, ok := self.Conn.ConnectionState()
+				res.ExportOK = ok
+				if !ok {
+					return
+				}
+				res.Suite = int(st.CipherSuiteID)
+				raw, err := st.MarshalBinary()
+				res.MarshalErr = vErrString(err)
+				dec := &State{}
+				res.DecodeErr = vErrString(dec.UnmarshalBinary(raw))
+				_, err = st.generateInternalState()
+				res.ResumeErr = vErrString(err)
+			}()
+			c19Quiet(self)
+			c19Quiet(peer)
+		})
+		out.emit(res)
+	}
+}
+
+// c19ProbeLogger calls ConnectionState() from every trace line of the handshake, i.e. at every
+// point where the state machine is between two steps (a deterministic stand-in for a concurrent
+// caller of the public API).
+type c19ProbeLogger struct {
+	conn   func() *Conn
+	mu     sync.Mutex
+	panics []c19Extra
+}
+
+func (l *c19ProbeLogger) probe(at string) {
+	c := l.conn()
+	if c == nil {
+		return
+	}
+	defer func() {
+		if r := recover(); r != nil {
+			common := dtlsstate.CommonState(c.state)
+			l.mu.Lock()
+			l.panics = append(l.panics, c19Extra{Kind: "midhandshake", Panic: fmt.Sprint(r), At: at,
+				LocalEpoch: int(common.LocalEpoch()), LocalSeqs: len(common.LocalSequenceNumber)})
+			l.mu.Unlock()
+		}
+	}()
+	_, _ = c.ConnectionState()
+}
+
+func (l *c19ProbeLogger) Trace(msg string)                  { l.probe(msg) }
+func (l *c19ProbeLogger) Tracef(f string, a ...interface{}) { l.probe(fmt.Sprintf(f, a...)) }
+func (l *c19ProbeLogger) Debug(string)                      {}
+func (l *c19ProbeLogger) Debugf(string, ...interface{})     {}
+func (l *c19ProbeLogger) Info(string)                       {}
+func (l *c19ProbeLogger) Infof(string, ...interface{})      {}
+func (l *c19ProbeLogger) Warn(string)                       {}
+func (l *c19ProbeLogger) Warnf(string, ...interface{})      {}
+func (l *c19ProbeLogger) Error(string)                      {}
+func (l *c19ProbeLogger) Errorf(string, ...interface{})     {}
+
+type c19ProbeFactory struct{ l *c19ProbeLogger }
+
+func (f *c19ProbeFactory) NewLogger(string) logging.LeveledLogger { return f.l }
+
+// TestVerifC19MidHandshake: ConnectionState() while the handshake is still running (outside the
+// letter of C19, which speaks of established connections): generateState indexes
+// LocalSequenceNumber[LocalEpoch] without the bounds check generateState13 has.
+func TestVerifC19MidHandshake(t *testing.T) {
+	out := newVOut(t)
+	for _, side := range []string{"client", "server"} {
+		side := side
+		var found []c19Extra
+		established := false
+		vBubble(t, func(t *testing.T) {
+			ccfg, scfg := vPSKPair(TLS_PSK_WITH_AES_128_GCM_SHA256)
+			var lab *vLab
+			pl := &c19ProbeLogger{}
+			pl.conn = func() *Conn {
+				if lab == nil {
+					return nil
+				}
+
+				return lab.peer(side).Conn
+			}
+			if side == "client" {
+				ccfg.LoggerFactory = &c19ProbeFactory{pl}
+			} else {
+				scfg.LoggerFactory = &c19ProbeFactory{pl}
+			}
+			n := newVNet()
+			lab = &vLab{Net: n}
+			cep, sep := n.endpoint("client"), n.endpoint("server")
+			cc, err := clientWithConfig(cep, vAddr("server"), ccfg)
+			if err != nil {
+				t.Fatal(err)
+			}
+			sc, err := serverWithConfig(sep, vAddr("client"), scfg)
+			if err != nil {
+				t.Fatal(err)
+			}
+			lab.Client = &vPeer{Name: "client", EP: cep, Conn: cc, Done: make(chan struct{})}
+			lab.Server = &vPeer{Name: "server", EP: sep, Conn: sc, Done: make(chan struct{})}
+			lab.Pump = &vPump{net: n}
+			for _, p := range []*vPeer{lab.Client, lab.Server} {
+				go func(p *vPeer) {
+					p.Err = p.Conn.HandshakeContext(context.Background())
+					close(p.Done)
+				}(p)
+			}
+			lab.Pump.run(lab.bothDone, 10*time.Second)
+			established = lab.established()
+			pl.mu.Lock()
+			found = append(found, pl.panics...)
+			pl.mu.Unlock()
+			c19Quiet(lab.Client)
+			c19Quiet(lab.Server)
+		})
+		if len(found) == 0 {
+			out.emit(c19Extra{Kind: "midhandshake", Side: side, Name: fmt.Sprintf("established=%v", established)})
+		}
+		for _, f := range found {
+			f.Side = side
+			f.Name = fmt.Sprintf("established=%v", established)
+			out.emit(f)
+		}
 	}
 }
